@@ -70,7 +70,10 @@ def apply_simple_adc(
 
     # Normalize first (full range gives exactly 1.0), then scale to the codes
     normalized = (
-        np.clip(signal, a_min=voltage_min, a_max=voltage_max) - voltage_min
+        np.clip(
+            np.asarray(signal, dtype=np.float64), a_min=voltage_min, a_max=voltage_max
+        )
+        - voltage_min
     ) / (voltage_max - voltage_min)
 
     # Largest floating point value which does not exceed 'max_code'
